@@ -1,17 +1,22 @@
 (* OutBufSpec.v -- what property C11 demands, independent of how term.c buffers.
 
-   The specification of a history of output operations is one byte string: the bytes
-   each request asks for, concatenated in order ("the unbuffered stream").  The
-   checker [check] walks a history together with the chunks an implementation delivered
-   during each operation and decides the three clauses of the property:
-     - what has been delivered so far is always a prefix of what has been asked so far,
-       chunk by chunk in order (nothing lost, duplicated, reordered, invented);
+   A terminal may have an output function, a descriptor, both, or neither; output goes to the
+   ACTIVE sink: the function if there is one, else the descriptor.  The specification of a
+   history is, PER SINK, one byte string: the bytes of the requests made while that sink was
+   active, concatenated in order ("the unbuffered stream" of that sink).  The checker
+   [check] walks a history together with the tagged chunks an implementation delivered during
+   each operation and decides the clauses of the property:
+     - every chunk goes to the sink that is active, and what has been delivered so far is
+       always a prefix of what has been asked so far, chunk by chunk in order (nothing lost,
+       duplicated, reordered, invented, or sent to the other sink);
      - no chunk is longer than the buffer size in force;
      - after a flush, and after every operation when there is no buffer, nothing asked
        for is still outstanding.
-   The property fixes the buffer size "while output is pending"; a resize with bytes
-   outstanding is outside it: the checker then forgets the outstanding bytes and
-   raises [k_forfeit] (stream equality is claimed only for histories without forfeit). *)
+   The property fixes the configuration "while output is pending".  A resize with bytes
+   outstanding is outside it: the checker forgets the outstanding bytes and raises
+   [k_forfeit].  A change of the active sink with bytes outstanding, or a request while no
+   sink is active, is outside it too (what is pending would surface at another sink later):
+   the checker raises [k_forfeit] and stops checking that history. *)
 From Coq Require Import ZArith List Bool.
 From Tickit Require Import OutBufDefs.
 Import ListNotations.
@@ -33,36 +38,67 @@ Definition asked (o : op) : option (list byte) :=
       else None
   | OWritef f => Some f
   | OSetBuf n => if n <? 0 then None else Some []
-  | OFlush | OSetFunc | OSetFd => Some []
+  | OFlush | OSetFunc _ | OSetFd _ => Some []
   end.
 
-(* the unbuffered stream of a history *)
-Fixpoint stream (ops : list op) : option (list byte) :=
+Definition sink_eqb (a b : sink) : bool :=
+  match a, b with SFunc, SFunc | SFd, SFd => true | _, _ => false end.
+
+Definition osink_eqb (a b : option sink) : bool :=
+  match a, b with
+  | None, None => true
+  | Some x, Some y => sink_eqb x y
+  | _, _ => false
+  end.
+
+(* the active sink of a configuration: the function wins *)
+Definition active_of (func fd : bool) : option sink :=
+  if func then Some SFunc else if fd then Some SFd else None.
+
+Definition is_active (k : sink) (func fd : bool) : bool := osink_eqb (active_of func fd) (Some k).
+
+(* the unbuffered stream of sink [k]: the requests made while k is the active sink *)
+Fixpoint stream_to (k : sink) (func fd : bool) (ops : list op) : option (list byte) :=
   match ops with
   | [] => Some []
-  | o :: r => match asked o, stream r with
-              | Some a, Some b => Some (a ++ b)
-              | _, _ => None
-              end
+  | o :: r =>
+    let '(func', fd') := match o with
+                         | OSetFunc b => (b, fd)
+                         | OSetFd b => (func, b)
+                         | _ => (func, fd)
+                         end in
+    match asked o, stream_to k func' fd' r with
+    | Some a, Some b => Some ((if is_active k func fd then a else []) ++ b)
+    | _, _ => None
+    end
   end.
 
-(* the buffer is resized only while nothing is pending (semantic form, along the run) *)
-Fixpoint sized_when_drained (s : obuf) (ops : list op) : Prop :=
+(* what of a list of tagged chunks went to sink [k] *)
+Definition to_sink (k : sink) (d : list tchunk) : list byte :=
+  concat (map snd (filter (fun tc => sink_eqb (fst tc) k) d)).
+
+(* the configuration (buffer size, active sink) changes only while nothing is pending *)
+Fixpoint config_when_drained (s : obuf) (ops : list op) : Prop :=
   match ops with
   | [] => True
   | o :: r =>
-    (match o with OSetBuf _ => pending s = [] | _ => True end) /\
-    (match step s o with Ok (s', _) => sized_when_drained s' r | _ => True end)
+    (match o with
+     | OSetBuf _ => pending s = []
+     | OSetFunc b => active (set_output_func s b) <> active s -> pending s = []
+     | OSetFd b => active (set_output_fd s b) <> active s -> pending s = []
+     | _ => True
+     end) /\
+    (match step s o with Ok (s', _) => config_when_drained s' r | _ => True end)
   end.
 
-(* syntactic sufficient condition: every resize comes first or right after a flush/resize *)
-Fixpoint resize_after_flush (drained : bool) (ops : list op) : bool :=
+(* syntactic sufficient condition: every reconfiguration comes first or right after a
+   flush or another reconfiguration *)
+Fixpoint config_after_flush (drained : bool) (ops : list op) : bool :=
   match ops with
   | [] => true
-  | OSetBuf _ :: r => drained && resize_after_flush true r
-  | OFlush :: r => resize_after_flush true r
-  | (OSetFunc | OSetFd) :: r => resize_after_flush drained r
-  | _ :: r => resize_after_flush false r
+  | (OSetBuf _ | OSetFunc _ | OSetFd _) :: r => drained && config_after_flush true r
+  | OFlush :: r => config_after_flush true r
+  | _ :: r => config_after_flush false r
   end.
 
 (* the same history with every buffer size replaced by "none" *)
@@ -71,7 +107,9 @@ Definition unbuffered (ops : list op) : list op :=
 
 (* ---------------- the checker used as the oracle ---------------- *)
 
-Record ck := mkCk { k_cap : Z; k_outst : list byte; k_forfeit : bool }.
+Record ck := mkCk { k_cap : Z; k_func : bool; k_fd : bool; k_outst : list byte; k_forfeit : bool }.
+
+Definition k_active (k : ck) : option sink := active_of (k_func k) (k_fd k).
 
 Fixpoint strip_prefix (p l : list byte) : option (list byte) :=
   match p, l with
@@ -80,14 +118,16 @@ Fixpoint strip_prefix (p l : list byte) : option (list byte) :=
   | _ :: _, [] => None
   end.
 
-(* consume the delivered chunks from the front of the outstanding bytes *)
-Fixpoint take_chunks (cp : Z) (outst : list byte) (cs : list chunk) : option (list byte) :=
+(* consume the delivered chunks from the front of the outstanding bytes; each must have
+   gone to the active sink [act] *)
+Fixpoint take_chunks (cp : Z) (act : option sink) (outst : list byte) (cs : list tchunk)
+  : option (list byte) :=
   match cs with
   | [] => Some outst
-  | c :: r =>
-    if (cp =? 0) || (zlen c <=? cp)
+  | (t, c) :: r =>
+    if osink_eqb act (Some t) && ((cp =? 0) || (zlen c <=? cp))
     then match strip_prefix c outst with
-         | Some o' => take_chunks cp o' r
+         | Some o' => take_chunks cp act o' r
          | None => None
          end
     else None
@@ -98,37 +138,55 @@ Definition is_nil {A} (l : list A) : bool := match l with [] => true | _ :: _ =>
 Definition must_drain (k : ck) (o : op) : bool :=
   match o with OFlush => true | _ => k_cap k =? 0 end.
 
-Definition check_step (k : ck) (o : op) (d : list chunk) : option ck :=
+Definition with_outst (k : ck) (o : list byte) : ck := mkCk (k_cap k) (k_func k) (k_fd k) o (k_forfeit k).
+Definition forfeited (k : ck) : ck := mkCk (k_cap k) (k_func k) (k_fd k) [] true.
+
+(* result: the next state and whether checking stops here *)
+Definition check_step (k : ck) (o : op) (d : list tchunk) : option (ck * bool) :=
   match o with
   | OSetBuf n =>
       if is_nil d && (0 <=? n)
-      then Some (mkCk n [] (k_forfeit k || negb (is_nil (k_outst k))))
+      then Some (mkCk n (k_func k) (k_fd k) [] (k_forfeit k || negb (is_nil (k_outst k))), false)
       else None
+  | OSetFunc _ | OSetFd _ =>
+      (* chunks seen during a reconfiguration can only be a flush to the sink active before it *)
+      match take_chunks (k_cap k) (k_active k) (k_outst k) d with
+      | None => None
+      | Some rest =>
+        let '(f', d') := match o with OSetFunc b => (b, k_fd k) | OSetFd b => (k_func k, b) | _ => (k_func k, k_fd k) end in
+        let k' := mkCk (k_cap k) f' d' rest (k_forfeit k) in
+        if osink_eqb (k_active k) (k_active k') || is_nil rest then Some (k', false)
+        else Some (forfeited k', true)
+      end
   | _ =>
       match asked o with
       | None => None
       | Some bs =>
-        match take_chunks (k_cap k) (k_outst k ++ bs) d with
-        | None => None
-        | Some rest =>
-          if must_drain k o && negb (is_nil rest) then None
-          else Some (mkCk (k_cap k) rest (k_forfeit k))
+        match k_active k with
+        | None =>
+            if is_nil d then (if is_nil bs then Some (k, false) else Some (forfeited k, true)) else None
+        | Some _ =>
+          match take_chunks (k_cap k) (k_active k) (k_outst k ++ bs) d with
+          | None => None
+          | Some rest =>
+            if must_drain k o && negb (is_nil rest) then None
+            else Some (with_outst k rest, false)
+          end
         end
       end
   end.
 
-Fixpoint check_from (k : ck) (ops : list op) (outs : list (list chunk)) : option ck :=
+Fixpoint check_from (k : ck) (ops : list op) (outs : list (list tchunk)) : option ck :=
   match ops, outs with
   | [], [] => Some k
   | o :: r, d :: ds => match check_step k o d with
-                       | Some k' => check_from k' r ds
+                       | Some (k', false) => check_from k' r ds
+                       | Some (k', true) => Some k'
                        | None => None
                        end
   | _, _ => None
   end.
 
-(* a history run on a freshly built terminal (no buffer, nothing pending) that has an
-   output function or descriptor; without either, nothing is claimed *)
-Definition check (sink : bool) (ops : list op) (outs : list (list chunk)) : bool :=
-  if sink then match check_from (mkCk 0 [] false) ops outs with Some _ => true | None => false end
-  else true.
+(* a history run on a freshly built terminal (no buffer, nothing pending) with the given sinks *)
+Definition check (func fd : bool) (ops : list op) (outs : list (list tchunk)) : bool :=
+  match check_from (mkCk 0 func fd [] false) ops outs with Some _ => true | None => false end.
